@@ -1711,9 +1711,14 @@ func (n *RegexNode) reduceRep() *RegexNode {
 					// Every iteration of an atomic loop keeps what it took. Two or more
 					// mandatory iterations of a loop that must consume something
 					// ((?>a{1,2}){2}, (?>b+){2,}) can therefore fail where a single merged
-					// loop succeeds; with at most one mandatory iteration, or a child that
-					// may match nothing, the merged loop consumes exactly the same text.
-					valid = min <= 1 || child.M == 0
+					// loop succeeds. The group loop itself can still be backtracked into:
+					// with a minimum of zero it can be left without any iteration
+					// ((?>b+)*b matches "b"), and with a bounded child it can drop single
+					// iterations ((?>a{1,2}){1,2}a matches "aaa"); one merged atomic loop
+					// gives nothing back. What remains is an unbounded child under at least
+					// one mandatory iteration: the first iteration takes everything and the
+					// others, if required, must be able to match nothing.
+					valid = child.N == math.MaxInt32 && (min == 1 || (min > 1 && child.M == 0))
 				}
 			} else {
 				switch child.T {
